@@ -55,7 +55,7 @@ PROPS = {
     'C12': {
         'run_vo': 'Pool/Run.vo', 'props_vo': 'Properties/C12.vo', 'level': 'other', 'confirm': False, 'shrink': False,
         'classes': {1: 'double-release', 2: 'released-while-application-holds-it', 3: 'content-changed-while-held',
-                    4: 'written-after-release', 5: 'handed-to-application-after-release'},
+                    4: 'written-after-release', 5: 'handed-to-application-after-release', 7: 'used-after-release'},
         'trusted': ['hook message/pool (release / recycle / re-acquire notifications, poison helpers; add-only, build tag verif)',
                     'harness/pooltrack.go: object numbering by pointer, digest of message content at hand-over and at the end of the hold'],
         'assumptions': ['sync.Pool hands out only objects that were Put', 'the order of tracker events is the order in which the hooks took the tracker lock (a linearisation of the real events)'],
